@@ -56,6 +56,7 @@ def _combos(result):
 def run_params(prog):
     events = []
     pl = None
+    twin = None
     for op in prog:
         k = op[0]
         exc = None
@@ -68,6 +69,8 @@ def run_params(prog):
                 d[5] = [1, 2]
             try:
                 pl = ParameterList(d)
+                twin = ParameterList(d)        # a second list declared from the very same dictionary ...
+                d["late"] = [9, 8]             # ... which the caller goes on using afterwards
             except Exception as e:  # noqa: BLE001
                 exc = e
             events.append({"op": "pl_init", "decl": [list(x) for x in decl], "badkey": bool(badkey), "out": outcome(exc)})
@@ -75,6 +78,7 @@ def run_params(prog):
                 break
         elif k == "init_none":
             pl = ParameterList()
+            twin = ParameterList()
             events.append({"op": "pl_init", "decl": [], "badkey": False, "out": "ok"})
         elif k == "declare":
             _, name, shape, namekind = op
@@ -100,9 +104,11 @@ def run_params(prog):
                     d["zz"] = 0
                 r1.append({"junk": 1})
                 res2 = _combos(pl.build())
+                res3 = _combos(twin.build())
             except Exception as e:  # noqa: BLE001
                 exc = e
-            events.append({"op": "build", "out": outcome(exc), "res": res, "res2": res2})
+                res3 = []
+            events.append({"op": "build", "out": outcome(exc), "res": res, "res2": res2, "twin": res3})
         else:
             raise AssertionError(op)
     return events
@@ -302,6 +308,7 @@ def _exact_int(fr):
 def run_search(prog):
     global TABLE, COUNT, SCALE
     events = []
+    shared = None
     for op in prog:
         _, grid, reps, mode, procs, scale, table = op
         names = [n for n, _ in grid]
@@ -317,8 +324,14 @@ def run_search(prog):
         exc = None
         report, best = [], 0
         try:
-            b, results = grid_search(SearchModel, {nm: list(v) for nm, v in grid}, score_func, processes=procs,
-                                     repetitions=reps, mode=MODES[mode])
+            if len(prog) > 1:
+                # several searches of one program re-use ONE ParameterList object
+                if shared is None:
+                    shared = ParameterList({nm: list(v) for nm, v in grid})
+                params = shared
+            else:
+                params = {nm: list(v) for nm, v in grid}
+            b, results = grid_search(SearchModel, params, score_func, processes=procs, repetitions=reps, mode=MODES[mode])
             for r in results:
                 params = [[str(k), int(v)] for k, v in r.items() if k not in ("records", "score")]
                 recs = [_exact_int((Fraction(x) - Fraction(OFFSETS.get(scale, 0))) / Fraction(sc)) for x in r["records"]]
@@ -343,6 +356,22 @@ def search_programs_from_tables(tables, modes, procs_choices, scales, rng, grid=
                 continue
             sc = rng.choice(scales + ["qoff", "qoff"]) if "VARIANCE" in mode else rng.choice(scales)
             out.append([["grid_search", g, reps, mode, rng.choice(procs_choices), sc, t]])
+    return out
+
+
+def repeated_search_programs(tables, rng, n):
+    """2-3 consecutive searches on the same ParameterList object (same grid, different tables / modes / process counts)."""
+    out = []
+    for _ in range(n):
+        nc = rng.choice([2, 3])
+        g = [["x", list(range(nc))]]
+        prog = []
+        for _ in range(rng.choice([2, 3])):
+            reps = rng.choice([1, 2])
+            t = [[rng.choice([-3, -1, 0, 0, 2, 5]) for _ in range(reps)] for _ in range(nc)]
+            mode = rng.choice([m for m in sorted(MODES) if reps > 1 or "VARIANCE" not in m])
+            prog.append(["grid_search", g, reps, mode, rng.choice([1, 1, 2]), rng.choice(["1", "q"]), t])
+        out.append(prog)
     return out
 
 
